@@ -42,6 +42,7 @@ from deep.processor.context.action_results import ActionResult, ActionCallback
 from deep.processor.context.log_action import LOG_MSG, LogActionContext, LogActionResult
 from deep.processor.frame_collector import FrameCollectorContext, FrameCollector
 from deep.processor.variable_set_processor import VariableProcessorConfig
+from deep.utils import time_ns
 
 if TYPE_CHECKING:
     from deep.processor.context.trigger_context import TriggerContext
@@ -69,8 +70,13 @@ class SnapshotActionContext(FrameCollectorContext, ActionContext):
 
     @property
     def ts(self) -> int:
-        """The timestamp in nanoseconds for this trigger."""
-        return self.trigger_context.ts
+        """
+        The timestamp in nanoseconds from which the processing time of this action is measured.
+
+        This is the time this action started, not the time of the trace event: several tracepoints can share a line,
+        and the time an earlier one took is not to be paid for by this one (it would be left with no variables).
+        """
+        return getattr(self, '_started_ns', None) or self.trigger_context.ts
 
     def should_collect_vars(self, current_frame_index: int) -> bool:
         """
@@ -108,6 +114,7 @@ class SnapshotActionContext(FrameCollectorContext, ActionContext):
         return self.location_action.config.get(LOG_MSG, None)
 
     def _process_action(self):
+        self._started_ns = time_ns()
         collector = FrameCollector(self, self.trigger_context.frame)
 
         frames, variables = collector.collect({}, self.var_cache)
